@@ -68,6 +68,17 @@ def configs(tier, seed):
     for order in itertools.permutations(range(3)):
         out.append({"name": f"spectral-shapes-order{''.join(map(str, order))}", "kind": "shapes", "order": list(order)})
     out.append({"name": "baseline-and-artifact-labels", "kind": "fixed"})
+    # dataset declaration order in a linked group; index dependent and index independent datasets share aligned indices
+    dsets = {"da": {"label": "da", "mc": ["m2"], "maxis": [0.0, 1.0], "gaxis": [1.0, 2.0, 3.0]},
+             "db": {"label": "db", "mc": ["m1"], "maxis": [0.0, 1.0, 2.0], "gaxis": [1.0, 2.0, 3.0], "scale": "scb"},
+             "dc": {"label": "dc", "mc": ["m1", "m2"], "maxis": [0.0, 1.5], "gaxis": [2.0, 3.0]}}
+    for combo in (("da", "db"), ("da", "db", "dc")):
+        for order in itertools.permutations(combo):
+            if len(combo) == 3 and tier != "thorough" and order not in (("da", "db", "dc"), ("dc", "db", "da"), ("db", "dc", "da")):
+                continue
+            out.append({"name": "datasets-" + "-".join(order), "kind": "datasets",
+                        "pipeline": {"name": "datasets-" + "-".join(order), "mcs": {"m1": base["m1"], "m2": base["m2"]},
+                                     "datasets": [dict(dsets[d]) for d in order], "groups": {"default": {"link_clp": True}}}})
     from harness import c04_kinetics as c04
 
     for top in ("chain3-loss", "branched3", "chain2-loss"):
@@ -93,7 +104,33 @@ def run_config(batch, rec):
 
             c04._run_one(cfg["c04"], rec)  # labelled concentration columns against the rate equations, per declaration order
             continue
+        if cfg["kind"] == "datasets":
+            _run_datasets(cfg, rec)
+            continue
         {"combine": _run_combine, "osc": _run_osc, "shapes": _run_shapes, "fixed": _run_fixed}[cfg["kind"]](cfg, rec)
+
+
+def _run_datasets(cfg, rec):
+    """Linked datasets in every declaration order: each aligned problem's columns are the per-label sums of what the datasets
+    present at that index contribute (index dependent ones with that index's matrix) - the C02 matrix obligations per label."""
+    import glotaran.optimization.matrix_provider as mp
+
+    rec.encodes(mp.MatrixProviderLinked.calculate_aligned_matrices, mp.MatrixProviderLinked.align_matrices,
+                mp.MatrixProviderLinked.align_full_clp_labels)
+    pcfg = cfg["pipeline"]
+    for ctx, src, stubs, kind, out in c02.symbolic_run(pcfg, rec):
+        rec.witness_path(ctx)
+        wit = lambda mm, cfg=cfg: {"env": model_env(mm), "item": cfg}  # noqa: E731
+        if kind == "exc":
+            rec.unexpected(ctx, f"{cfg['name']}: {type(out).__name__}: {out}", "labels:datasets:exception", wit)
+            continue
+        scheme, optimizer, pen, _ = out
+        got = c02.check_objective(pcfg, rec, ctx, src, c02.ordered_calls(stubs), pen, fp_prefix="labels:datasets")
+        if got is not None and rec.candidates:
+            for i, c in enumerate(rec.candidates):  # route replays of this item through this harness
+                if c[0].startswith("labels:datasets") and "item" not in c[2]:
+                    rec.candidates[i] = (c[0], c[1], dict(c[2], item=cfg))
+        rec.want_sample() and rec.sample({"config": cfg["name"], "linear_problems": len(c02.ordered_calls(stubs))})
 
 
 def _run_combine(cfg, rec):
@@ -299,6 +336,8 @@ def _replay_item(cfg):
             if v:
                 return v, d
         return False, "ok"
+    if cfg["kind"] == "datasets":
+        return c02.replay({"cfg": cfg["pipeline"], "env": {}})
     with warnings.catch_warnings():
         warnings.simplefilter("ignore")
         if cfg["kind"] == "combine":
